@@ -148,6 +148,23 @@ CHECKS["C15"] = dict(
                       "in hours (pinned by the repo tests); fit at 32 A, transition SoC 0.8; boundary-exact float cases "
                       "are skipped as non-decisive.")
 
+CHECKS["C16"] = dict(
+    text="Sites.tla transcribes the three site designs (phase groups with line-to-line angles 30/-90/150, pods, "
+         "sub-panels, delta-wye algebra, ratings as functions of the transformer capacities) and an independently "
+         "described plant (Kirchhoff line currents, real power through the 120 V wye windings). TLC decides in exact "
+         "integer phasor arithmetic that every lattice assignment the constraint set accepts stays within the plant's "
+         "ratings (FeasibleWithinRatings, SecondaryAloneSuffices, Structure). The constraint set each real factory "
+         "builds is compared entry by entry with the spec's table (basic and real EVSE types, several capacities), every "
+         "lattice point is executed through the real ChargingNetwork (magnitudes, is_feasible), and schedules the real "
+         "networks accept at their bisected feasibility boundary are checked directly against the ratings. Thorough: "
+         "Apalache proves the core implication for all non-negative integers (recorded, not relied on).",
+    tech="TLA+ spec (Sites.tla) + TLC theorems on exact integer lattices + configuration conformance and spec-to-code replay",
+    ref="5/C16", note="Ratings are read in the 120 V line-to-neutral system the factories document: power = 120*sqrt(3)*sum(I); "
+                      "the literal 208 V product may exceed the rating by the nominal rounding 208/(120*sqrt 3) = 1.00074 and "
+                      "no more (DESIGN.md 12.4). Capacities 20-300 kW; integer group totals within 32 A per EVSE; the "
+                      "physical wiring is the one in the factories' id lists and comments (a common misreading of the real "
+                      "site would go unnoticed).")
+
 NOT_APPLICABLE = []
 
 
